@@ -68,9 +68,9 @@ def cert_case(rng, cid):
         a = rng.randrange(2)
         names = rng.choice([[], [], [10], [10, 11]])
         if r < 0.45:
-            ops.append(["add_cert", a, rng.randrange(n), rng.randrange(8)] + names)
+            ops.append(["add_cert", a, rng.randrange(n), rng.randrange(24)] + names)
         elif r < 0.8:
-            ops.append(["replace_cert", a, rng.randrange(n), rng.randrange(8), rng.choice([0, 1, 2, 3, 6, 7, 900])] + names)
+            ops.append(["replace_cert", a, rng.randrange(n), rng.randrange(24), rng.choice([0, 1, 2, 3, 6, 7, 900])] + names)
         else:
             ops.append(["remove_cert", a, rng.choice([0, 1, 2, 3, 7, 900])])
         if rng.random() < 0.3:
@@ -134,6 +134,14 @@ def worker_cases():
             for t1 in (0, 1, 2):
                 for t2 in (0, 1, 2):
                     out.append(Case("wt_%d_%d_%d_%d" % (tls, how, t1, t2), [["front_tags", tls, how, t1, t2]]))
+    # histories of adds / removes on one hostname of the real proxy objects (model: coq/C07/Tags.v)
+    import random
+    r = random.Random(20260926)
+    for i in range(60):
+        steps = []
+        for _ in range(r.choice([3, 5, 8, 12])):
+            steps += [r.choice([0, 0, 0, 1, 1]), r.choice([0, 0, 1, 1, 2, 3]), r.randrange(3)]
+        out.append(Case("wq_%d" % i, [["front_seq", i % 2] + steps]))
     return out
 
 
@@ -153,6 +161,11 @@ def extra_stage(tier, rng, work):
         if any(n.startswith("invalid-case") for n in o["notes"]):
             problems.append("c07w: " + "; ".join(o["notes"]))
         for ob in o["obs"]:
+            if c.ops[0][0] == "front_seq":
+                for j in range(0, len(ob), 2):
+                    fronts_refused += ob[j] == "err"
+                    fronts_accepted += ob[j] == "ok"
+                continue
             if c.ops[0][0] == "front_tags":
                 if len(ob) == 3:
                     fronts_refused += ob[1] == "err"
